@@ -203,4 +203,17 @@ Proof.
     + rewrite nmax_R. destruct (Rle_dec 0 1); lra.
 Qed.
 
+(* non-vacuity of [consistent]: the Gaussian-shaped user classes of the correspondence (each of the four
+   methods written by hand, as in harness/c03.py) are consistent with cor_gaussian, whatever subset of
+   them a class provides *)
+Lemma user_gauss_consistent var nug lr d : 0 < lr ->
+  consistent (cor_gaussian OR) var nug lr d (user_gauss OR var nug lr).
+Proof.
+  intros Hl. unfold consistent, user_gauss, canon, cor_gaussian, nsq. rsimp.
+  assert (E : forall x, Rabs x / lr * (Rabs x / lr) = x / lr * (x / lr)).
+  { intros x. unfold Rdiv. replace (Rabs x * / lr * (Rabs x * / lr)) with ((Rabs x * Rabs x) * (/ lr * / lr)) by ring.
+    rewrite <- Rabs_mult. rewrite (Rabs_pos_eq (x * x)) by nra. ring. }
+  repeat split; intros _ x; cbn [u_cor u_correlation u_covariance u_variogram]; rewrite ?E; try reflexivity; ring.
+Qed.
+
 End Closed.
